@@ -20,7 +20,8 @@ RULE = ("generated structures (synthetic chains, nucleic strands, waters, fragme
         "truncation at 54/60/66/78 columns, TER variants, END missing/repeated/mid-file, 2-4 models, atoms before "
         "MODEL 1, alt-locs interleaved or blocked, insertion codes, negative numbers, blank / repeated chain ids, "
         "waters as ATOM/HETATM HOH/WAT, no final newline; with and without --drop-water. Non-trivial: at least one "
-        "mutation applied; distinct = (sorted mutation set, drop-water, source kind)")
+        "mutation applied; distinct = (sorted mutation set, drop-water, source kind)"
+        ' Round-2 additions: serial numbers of large structures (HETATM10000), v3 RNA names A/C/G/U, alternate atom names combined with alternate locations.')
 ASSUMPTIONS = ["the independent reader uses only the wwPDB fixed columns; records are well-formed by construction",
                "residues are contiguous in the file (the property speaks of one atom per identity, not of merging "
                "split residues)"]
